@@ -10,6 +10,7 @@ import (
 	"path/filepath"
 	"strings"
 	"time"
+	"verif/internal/gx"
 
 	"verif/internal/corpus"
 	"verif/internal/ev"
@@ -19,12 +20,68 @@ import (
 
 // c14cli: a seeded sample of mutants goes through the CLI commands as
 // processes and through /build, /verify and /bulk of a running server.
+// c14coldStarts: freshly started servers each receive one simultaneous burst of
+// valid documents of every regime and addon, so that whatever a process sets up
+// on first use is set up under contention; the process has to survive and
+// answer every request.
+func c14coldStarts(c *Ctx, gbin string, items []corpus.Item) {
+	starts := c.N(40, 400)
+	for k := 0; k < starts; k++ {
+		server, err := srv.Start(gbin)
+		if err != nil {
+			c.R.Count("cold_start_failed_to_start", 1)
+			continue
+		}
+		// one bulk stream: the server runs every request of it in its own goroutine
+		var lines bytes.Buffer
+		n := 0
+		for i := range items {
+			it := items[(i+k*7)%len(items)]
+			doc, err := gx.DocJSON(it.Data)
+			if err != nil {
+				continue
+			}
+			l, _ := json.Marshal(map[string]any{"action": "build", "req_id": fmt.Sprint(i), "payload": map[string]any{"data": base64.StdEncoding.EncodeToString(doc)}})
+			lines.Write(l)
+			lines.WriteByte('\n')
+			n++
+		}
+		got := 0
+		if resp, herr := server.PostStream("/bulk", &lines); herr != nil {
+			c.R.Count("cold_start_transport_errors", 1)
+		} else {
+			var buf bytes.Buffer
+			_, _ = buf.ReadFrom(resp.Body)
+			resp.Body.Close()
+			for _, ln := range strings.Split(strings.TrimSpace(buf.String()), "\n") {
+				if json.Valid([]byte(ln)) {
+					got++
+				}
+			}
+		}
+		c.R.Count("cold_start_bursts", 1)
+		c.R.Count("cold_start_requests_answered", int64(got))
+		crashed, what := server.Crashed()
+		alive := server.Alive()
+		server.Kill()
+		if crashed || !alive {
+			c.R.Fail("panic:cold-start:"+panicSite(what), fmt.Sprintf("a freshly started server died under a simultaneous burst of %d valid documents (start %d): %s", n, k, trunc(what)), map[string]any{"start": k, "log": what})
+			return
+		}
+		if got != n+1 {
+			c.R.Fail("bulk:responses-missing:cold-start", fmt.Sprintf("a bulk stream of %d build requests to a fresh server produced %d well-formed lines", n, got), map[string]any{"start": k})
+			return
+		}
+	}
+}
+
 func c14cli(c *Ctx, items []corpus.Item, tmp string) {
 	gbin := filepath.Join(ev.Root(), "bin", "gobl")
 	if _, err := os.Stat(gbin); err != nil {
 		c.R.Inconclusive("no-cli-binary")
 		return
 	}
+	c14coldStarts(c, gbin, items)
 	server, err := srv.Start(gbin)
 	if err != nil {
 		c.R.Inconclusive("server-start:" + err.Error())
